@@ -480,3 +480,32 @@ pub fn make_builder(
     };
     (result_new_with_constructor, new_with_builder_chain)
 }
+
+/// The size of a custom field type (bitenum or nested bitfield) isn't known while parsing. Getters verify
+/// it through their conversion, so a mismatch is a compile error. Fields without a getter (write-only or
+/// no accessors at all) need an explicit check, as a setter would otherwise write outside of its bits
+pub fn make_custom_type_size_checks(field_definitions: &[FieldDefinition]) -> Vec<TokenStream> {
+    field_definitions
+        .iter()
+        .filter_map(|field_definition| {
+            let CustomType::Yes(custom_type) = &field_definition.custom_type else {
+                return None;
+            };
+            if field_definition.getter_type.is_some() {
+                return None;
+            }
+            let raw_type = if field_definition.use_regular_int {
+                field_definition.primitive_type.clone()
+            } else {
+                let total_number_bits =
+                    field_definition.ranges.iter().fold(0, |a, b| a + b.len());
+                TokenStream2::from_str(format!("arbitrary_int::u{}", total_number_bits).as_str())
+                    .unwrap()
+            };
+            Some(quote! {
+                const _: fn(#custom_type) -> #raw_type =
+                    |value: #custom_type| -> #raw_type { value.raw_value() };
+            })
+        })
+        .collect()
+}
